@@ -205,6 +205,10 @@ func (d *Object) UnmarshalJSON(data []byte) error {
 	if d.payload == nil {
 		return ErrUnknownSchema
 	}
+	if _, ok := d.payload.(*Object); ok {
+		// an object cannot be its own payload: unmarshalling would never end
+		return ErrUnknownSchema
+	}
 	if err := json.Unmarshal(data, d.payload); err != nil {
 		return err
 	}
